@@ -220,9 +220,13 @@ fn run(variant: usize) -> CaseOut {
     set_latency(draw(1 << 16) as u64, [1u32, 0, 2][draw(3) as usize]);
     let n_docs = 1 + draw(6) as usize;
     let n_clients = 1 + draw(4) as usize;
-    let mut scripts: Vec<Vec<Kind>> = vec![];
+    // a registering request may arrive with a document already attached (Request::set_parsed_query):
+    // the parse of its own text, or of another text; the hash speaks about the text, so the text's
+    // document is what must be registered and executed
+    let mut scripts: Vec<Vec<(Kind, Option<usize>)>> = vec![];
     for _ in 0..n_clients {
         let mut s = vec![];
+        let mut s2 = vec![];
         for _ in 0..1 + draw(4) {
             let k = draw(n_docs as u32) as usize;
             let j = draw(n_docs as u32) as usize;
@@ -240,7 +244,16 @@ fn run(variant: usize) -> CaseOut {
                 10 => Kind::Malformed(k, draw(4)),
                 _ => Kind::Ordinary(k),
             });
+            let attach = if matches!(s.last(), Some(Kind::Register(_))) && chance(1, 3) {
+                sim::count("probe:request-with-attached-document");
+                Some(j)
+            } else {
+                None
+            };
+            let kind = s.pop().unwrap();
+            s2.push((kind, attach));
         }
+        let s = s2;
         scripts.push(s);
     }
     let desc = format!("scripts {:?}; params {:?}; store {}", scripts, params, if lru { "LruCacheStorage(64)" } else { "simulated" });
@@ -250,8 +263,11 @@ fn run(variant: usize) -> CaseOut {
         let script = script.clone();
         let schema = lru_schema.clone();
         let t = sim::spawn_local(&format!("client{c}"), async move {
-            for kind in script {
-                let req = build_request(&kind);
+            for (kind, attach) in script {
+                let mut req = build_request(&kind);
+                if let Some(j) = attach {
+                    req.set_parsed_query(async_graphql::parser::parse_query(doc_text(j)).expect("harness document parses"));
+                }
                 let invoke = next_seq();
                 sim::log_order(format!("client {c} invoke {:?}", kind));
                 let idx = apq(|a| {
